@@ -111,13 +111,13 @@ DEFAULT_ERR_MAP = [
     ("DecryptionError", "auth"),
     ("ProtectionError", "protection"),
     ("CipheringError", "protection"),
-    ("RuntimeError", "protection"),
     ("DataResultError", "client"),
     ("ActionError", "client"),
     ("HLSError", "client"),
     ("DlmsClientException", "client"),
     ("HdlcParsingError", "parse"),
-    ("NotImplementedError", "decode"),
+    ("NotImplementedError", "decode"),      # (a subclass of RuntimeError: must come first)
+    ("RuntimeError", "protection"),
     ("ValueError", "decode"),
     ("KeyError", "decode"),
     ("IndexError", "decode"),
@@ -446,6 +446,8 @@ def evaluate_cases(prop, case_iter, stats, max_mismatches=25, sample_every=None,
         for c in buf:
             exp = outs[pos:pos + len(c.lines)]
             pos += len(c.lines)
+            if sum(1 for m in mismatches if m.case.kind == "prop") >= max_mismatches:
+                break       # enough failing inputs; do not burn watchdog time on more of them
             obs = call_impl(c.impl, timeout=getattr(prop, "timeout", 2.0) * max(1, len(c.lines) // 20 + 1),
                             err_map=prop.err_map)
             if isinstance(obs, str):
